@@ -260,6 +260,13 @@ func (r *intraProxyStreamReceiver) Run(ctx context.Context, shardManager ShardMa
 	// while being reported as delivered.
 	defer cancel()
 
+	// A receiver that was closed before its goroutine got here (ClosePeerShard racing
+	// ensureStream) must not open a stream any more: the peer would register a sender for it on
+	// top of the one that serves this receiver's successor.
+	if r.shutdown != nil && r.shutdown.IsShutdown() {
+		return nil
+	}
+
 	client := adminservice.NewAdminServiceClient(conn)
 	streamClient, err := client.StreamWorkflowReplicationMessages(ctx)
 	if err != nil {
@@ -523,8 +530,17 @@ func (m *intraProxyManager) RegisterSender(
 	if ps.senders == nil {
 		ps.senders = make(map[peerStreamKey]*intraProxyStreamSender)
 	}
+	old := ps.senders[key]
 	ps.senders[key] = sender
 	m.streamsMu.Unlock()
+	// The newest stream of a shard pair supersedes an older one that is still open: end the
+	// older one. Otherwise, when the newer stream goes away again (e.g. it was opened by a
+	// receiver the peer had already closed), its registration is removed and the older stream
+	// stays open but unregistered for good - the peer sees a healthy stream and never reopens
+	// it, and nothing can be routed to the peer for this pair any more.
+	if old != nil && old != sender && old.shutdown != nil {
+		old.shutdown.Shutdown()
+	}
 }
 
 // UnregisterSender removes the registration of the given sender. The peer may already have
